@@ -50,7 +50,7 @@ type IndexColumn struct {
 
 func newSchema(table string, master []sqliteMaster) (*Schema, error) {
 	var createSQL string
-	n := strings.ToLower(table)
+	n := lower(table)
 	for _, m := range master {
 		if m.typ == "table" && m.name == n {
 			createSQL = m.sql
@@ -89,18 +89,20 @@ func newSchema(table string, master []sqliteMaster) (*Schema, error) {
 	return st, nil
 }
 
+// SQLite names (tables, columns, indexes, collations, types) are case
+// insensitive for ASCII letters only: "É" and "é" are different names.
+func lower(s string) string {
+	return strings.Map(func(r rune) rune {
+		if r >= 'A' && r <= 'Z' {
+			return r + 'a' - 'A'
+		}
+		return r
+	}, s)
+}
+
 // SQLite only stores a table definition when every column is there once, and
 // the PRIMARY KEY and UNIQUE constraints are about existing columns.
 func validCreateTable(ct sql.CreateTableStmt) error {
-	// SQLite names are case insensitive for ASCII only
-	lower := func(s string) string {
-		return strings.Map(func(r rune) rune {
-			if r >= 'A' && r <= 'Z' {
-				return r + 'a' - 'A'
-			}
-			return r
-		}, s)
-	}
 	cols := map[string]struct{}{}
 	for _, c := range ct.Columns {
 		n := lower(c.Name)
@@ -308,10 +310,10 @@ func sameIndex(a, b []IndexColumn) bool {
 		if c == "" {
 			return DefaultCollate
 		}
-		return strings.ToLower(c)
+		return lower(c)
 	}
 	for i := range a {
-		if !strings.EqualFold(a[i].Column, b[i].Column) ||
+		if lower(a[i].Column) != lower(b[i].Column) ||
 			a[i].Expression != b[i].Expression ||
 			coll(a[i].Collate) != coll(b[i].Collate) {
 			return false
@@ -365,9 +367,9 @@ func (st *Schema) setPK(cols []IndexColumn) bool {
 
 // Returns the index of the named column, or -1.
 func (st *Schema) Column(name string) int {
-	u := strings.ToLower(name)
+	u := lower(name)
 	for i, col := range st.Columns {
-		if strings.ToLower(col.Column) == u {
+		if lower(col.Column) == u {
 			return i
 		}
 	}
@@ -384,9 +386,9 @@ func (st *Schema) column(name string) *TableColumn {
 
 // NamedIndex returns the index with the name (case insensitive)
 func (st *Schema) NamedIndex(name string) *SchemaIndex {
-	u := strings.ToUpper(name)
+	u := lower(name)
 	for i, ind := range st.Indexes {
-		if strings.ToUpper(ind.Index) == u {
+		if lower(ind.Index) == u {
 			return &st.Indexes[i]
 		}
 	}
@@ -395,9 +397,9 @@ func (st *Schema) NamedIndex(name string) *SchemaIndex {
 
 // Returns the index of the named column, or -1.
 func (si *SchemaIndex) Column(name string) int {
-	u := strings.ToUpper(name)
+	u := lower(name)
 	for i, col := range si.Columns {
-		if strings.ToUpper(col.Column) == u {
+		if lower(col.Column) == u {
 			return i
 		}
 	}
@@ -417,7 +419,7 @@ func (si *SchemaIndex) Column(name string) int {
 // all values will be null.
 // See https://sqlite.org/lang_createtable.html#rowid
 func isRowid(tableConstraint bool, typ string, dir sql.SortOrder) bool {
-	if strings.ToUpper(typ) != "INTEGER" {
+	if lower(typ) != "integer" {
 		return false
 	}
 	return tableConstraint || dir == sql.Asc
@@ -436,14 +438,14 @@ func defaultWithAffinity(typ string, v interface{}) interface{} {
 		affReal
 	)
 	aff := affNumeric
-	switch u := strings.ToUpper(typ); {
-	case strings.Contains(u, "INT"):
+	switch u := lower(typ); {
+	case strings.Contains(u, "int"):
 		aff = affInteger
-	case strings.Contains(u, "CHAR"), strings.Contains(u, "CLOB"), strings.Contains(u, "TEXT"):
+	case strings.Contains(u, "char"), strings.Contains(u, "clob"), strings.Contains(u, "text"):
 		aff = affText
-	case u == "", strings.Contains(u, "BLOB"):
+	case u == "", strings.Contains(u, "blob"):
 		aff = affBlob
-	case strings.Contains(u, "REAL"), strings.Contains(u, "FLOA"), strings.Contains(u, "DOUB"):
+	case strings.Contains(u, "real"), strings.Contains(u, "floa"), strings.Contains(u, "doub"):
 		aff = affReal
 	}
 
